@@ -70,8 +70,32 @@ func (m *RWMutex) RUnlock() {
 	m.real.RUnlock()
 }
 
-func (m *RWMutex) TryLock() bool          { return m.real.TryLock() }
-func (m *RWMutex) TryRLock() bool         { return m.real.TryRLock() }
+// TryLock / TryRLock of a managed goroutine are one park-point pair each, decided on the tracked state (so the
+// scheduler's picture of who holds the lock stays right and nobody is granted into a lock it cannot get)
+func (m *RWMutex) TryLock() bool {
+	if sched.Pre() {
+		ok := !m.w && m.r == 0 && m.real.TryLock()
+		if ok {
+			m.w = true
+		}
+		sched.Post(sched.OpRec{Kind: "TryLock", Ok: ok})
+		return ok
+	}
+	return m.real.TryLock()
+}
+
+func (m *RWMutex) TryRLock() bool {
+	if sched.Pre() {
+		ok := !m.w && m.real.TryRLock()
+		if ok {
+			m.r++
+		}
+		sched.Post(sched.OpRec{Kind: "TryRLock", Ok: ok})
+		return ok
+	}
+	return m.real.TryRLock()
+}
+
 func (m *RWMutex) RLocker() gosync.Locker { return (*rlocker)(m) }
 
 type rlocker RWMutex
@@ -104,4 +128,14 @@ func (m *Mutex) Unlock() {
 	m.real.Unlock()
 }
 
-func (m *Mutex) TryLock() bool { return m.real.TryLock() }
+func (m *Mutex) TryLock() bool {
+	if sched.Pre() {
+		ok := !m.held && m.real.TryLock()
+		if ok {
+			m.held = true
+		}
+		sched.Post(sched.OpRec{Kind: "TryLock", Ok: ok})
+		return ok
+	}
+	return m.real.TryLock()
+}
